@@ -175,3 +175,77 @@ def split_fallback_assert(case, tag, event):
 
 KNOWN_CLASSES["f32_underflow_line_iterator"] = f32_underflow_line_iterator
 KNOWN_CLASSES["split_fallback_assert"] = split_fallback_assert
+
+def _coarse(case):
+    """rounding error comparable to the feature size: the spacing of the scalar type at the largest coordinate is at least 1/16 of the
+    smallest non-zero coordinate difference of the input"""
+    cs = sorted(set(gen.from_bits(int(tok)) for op in case.ops for tok in op.split()[1:] if tok.isdigit() and len(tok) > 12))
+    cs = [c for c in cs if c == c and abs(c) != float("inf")]
+    if len(cs) < 2:
+        return False
+    diffs = [b - a for a, b in zip(cs, cs[1:]) if b > a]
+    if not diffs:
+        return False
+    p = 24 if case.scalar == "f32" else 53
+    return max(abs(c) for c in cs) >= min(diffs) * 2.0 ** (p - 5)
+
+def split_coarse_rounding(case, tag, event):
+    """add_constraint_and_split where the spacing of the scalar type is comparable to the distances between the vertices: a split vertex is
+    placed at the rounded intersection, and the piece from there to the next vertex then runs exactly through, or on the wrong side of, an
+    existing vertex that was clear of the exact segment: a face of zero or negative area (geo), later debug assertions
+    `is_ordered_ccw` in legalize_edge (panic), non-Delaunay free edges next to it (cdtlocal)."""
+    if not any(o.split()[0] == "split" for o in case.ops) or not _coarse(case):
+        return False
+    if tag == "panic":
+        return event is not None and "is_ordered_ccw" in event
+    if tag in ("split", "segspec", "noncross", "ncons"):
+        # the piece of a crossed constraint behind a rounded split vertex is dropped when it would now cross another new piece
+        return True
+    if tag not in ("geo", "cdtlocal", "dt_when_free", "delaunay"):
+        return False
+    # a face that is not counter-clockwise must have a corner created by the split (payload 888000)
+    out = _run(case)
+    found = False
+    for line in out.splitlines():
+        t = line.split()
+        if not t or t[0] != "S" or len(t) < 9 or "V" not in t:
+            continue
+        nv, ne, nf, V, E = _parse_state(t)
+        P = [(x, y) for x, y, _ in V]
+        def orient(a, b, c):
+            return (b[0] - a[0]) * (c[1] - a[1]) - (b[1] - a[1]) * (c[0] - a[0])
+        for e in range(2 * ne):
+            nx, pv, fc, og = E[e]
+            if fc != 0:
+                tri = (og, E[nx][3], E[E[nx][0]][3])
+                if orient(P[tri[0]], P[tri[1]], P[tri[2]]) <= 0:
+                    if not any(V[k][2] == "888000" for k in tri):
+                        return False
+                    found = True
+    return found
+
+KNOWN_CLASSES["split_coarse_rounding"] = split_coarse_rounding
+
+def line_end_near_vertex(case, tag, event):
+    """a `line` query whose end point is within 4 representable steps (per coordinate) of a vertex position without being equal to it"""
+    if tag not in ("lineiter", "admission"):
+        return False
+    import struct
+    def key(b):
+        b = int(b)
+        return b if b < (1 << 63) else (1 << 63) - b      # monotone integer image of the IEEE bits
+    verts = []
+    for op in case.ops:
+        t = op.split()
+        if t[0] in ("ins", "insh"):
+            verts.append((key(t[1]), key(t[2])))
+    for op in case.ops:
+        t = op.split()
+        if t[0] in ("line", "confp", "isc") and len(t) >= 5:
+            bx, by = key(t[3]), key(t[4])
+            for (vx, vy) in verts:
+                if (bx, by) != (vx, vy) and abs(bx - vx) <= 4 and abs(by - vy) <= 4:
+                    return True
+    return False
+
+KNOWN_CLASSES["line_end_near_vertex"] = line_end_near_vertex
